@@ -655,7 +655,7 @@ func main() {
 			}
 			// (the model's 64-bit wrap-around makes these the most expensive lines of the trace: about
 			// 1 ms of model time per triple)
-			for i := 0; i < g.Scale(2000, 100000); i++ {
+			for i := 0; i < g.Scale(2000, 60000); i++ {
 				a, b, c := tr.Pick(g.R, forms), tr.Pick(g.R, forms), tr.Pick(g.R, forms)
 				g.Emit("C "+tr.Hex(a)+" "+tr.Hex(b), true, natTags(a, b, "int-boundary-forms")...)
 				if g.Thorough() || i%2 == 0 {
